@@ -245,9 +245,9 @@ func (g *gen) roundtrip(p *Plan, conformance bool) {
 		maxBlocks = 3
 	}
 	if g.r.Chance(1, 40) && o.Level < 4 {
-		// legacy frames: 8 MiB blocks
+		// legacy frames: 8 MiB blocks (every other option stays in play: the
+		// legacy format simply has no place for checksums or a size)
 		o.Legacy = true
-		o.BSum = false
 	}
 	bs := bsBytes(o.BS)
 	var n int
@@ -345,6 +345,14 @@ func (g *gen) pipeWriter(p *Plan, flushPct int) WScript {
 		if f+1 < frames {
 			w.Ops = append(w.Ops, WOp{Op: "reset", Sink: nsinks})
 			nsinks++
+			if g.r.Chance(1, 3) {
+				// options may be changed right after Reset (the goroutines of
+				// the previous frame may still be finishing)
+				no := o
+				no.HYield = g.r.Pick(50, 30, 20)
+				no.BSum = g.r.Bool()
+				w.Ops = append(w.Ops, WOp{Op: "apply", Opts: &no})
+			}
 		}
 	}
 	for i := 0; i < nsinks; i++ {
@@ -365,19 +373,7 @@ func (g *gen) pipeWriter(p *Plan, flushPct int) WScript {
 
 func (g *gen) pipeReader(p *Plan) RScript {
 	conc := g.r.PickInt(2, 2, 3, 4, 8, 0)
-	o := g.wopts(1)
-	if o.BS > 5 {
-		o.BS = 4
-	}
-	o.Level = 0
-	bs := bsBytes(o.BS)
-	n := g.length(bs, 8)
-	if o.BS == 5 && n > 3*bs {
-		n = g.r.Range(0, 3*bs)
-	}
-	in := len(p.Inputs)
-	p.Inputs = append(p.Inputs, g.input(n))
-	st := Stored{Base: "lz4w", Opts: &o, In: in}
+	st, bs, n, _ := g.storedFrame(p, 8, false)
 	nb := n/bs + 1
 	src := Source{Stored: st, Frag: g.fragFor(n), EOFWithData: g.r.Chance(1, 4), Yields: g.r.Pick(60, 30, 10)}
 	switch g.r.Pick(55, 20, 15, 10) {
